@@ -16,7 +16,7 @@ from ..ratinterp import Rat
 from .C06 import fold
 
 TOPO = "typhon/topography.py"
-EXPECT = {"C20.tiles": 3, "C20.overlap": 2, "C20.consts": 4, "C20.cache": 3, "C20.orient": 5, "C20.cover": 2, "C20.lonnorm": 2}
+EXPECT = {"C20.args": 3, "C20.tiles": 3, "C20.overlap": 2, "C20.consts": 4, "C20.cache": 3, "C20.orient": 5, "C20.cover": 2, "C20.lonnorm": 2}
 
 
 def _tiles(ctx):
@@ -483,3 +483,6 @@ def rule_lonnorm(ctx):
 def run(ctx):
     for r in (rule_tiles, rule_overlap, rule_consts, rule_cache, rule_orient, rule_cover, rule_lonnorm):
         ctx.attempt(r, ctx)
+    # the caller's arguments (arrays, filter / fill dictionaries) are not modified: an in-place update makes the next call on the same objects wrong
+    from ..purity import rule_pure as _rule_args
+    ctx.attempt(_rule_args, ctx, "C20.args", [('typhon/topography.py', 'SRTM30.elevation'), ('typhon/topography.py', 'SRTM30.get_native_grids'), ('typhon/topography.py', 'SRTM30.get_tiles')], "the caller's arguments are not modified in place")
